@@ -112,7 +112,7 @@ def canon_world(world, registry_mode="current"):
             slots.append(("tup", tuple(canon_elem(e) for e in s.obj), vid_of(s.obj)))
         else:
             slots.append((s.kind, visit(s.obj)))
-    limbo = tuple(sorted(visit(o) for o in world.limbo))
+    limbo = tuple(sorted(((visit(o) if hasattr(o, '__dict__') else ('tup', vid_of(o))) for o in world.limbo), key=repr))
     reg = []
     registry = _ALIAS_TRACKER._registry
     if registry_mode == "full":
@@ -169,7 +169,10 @@ def expand_states(args):
         world, _, _ = replay(driver, hist)
         events = driver.events(world)
         del world
-        for ev in events:
+        work = list(events)
+        variants = getattr(driver, "variants", None)
+        while work:
+            ev = work.pop(0)
             h2 = hist + (ev,)
             try:
                 w2, pre, out = replay(driver, h2)
@@ -181,6 +184,9 @@ def expand_states(args):
             agg.compared += 1
             c = driver.canon(w2)
             succ.append((h2, state_hash(c)))
+            if variants is not None:
+                # environment deviations discovered while executing ev (e.g. identity-reuse choices)
+                work.extend(variants(w2, h2, ev))
             del w2
     return agg, succ
 
